@@ -21,19 +21,48 @@ Proof.
   destruct (zact_get s sid); reflexivity.
 Qed.
 
+(* the client's inflate stream for an encoding: its own (fix 11) or the single decompStream, which then must only ever
+   have been fed from THIS encoding's server stream ([other s = false]) *)
+Definition zs_ready (own other : cst -> bool) (s : cst) : Prop :=
+  fixed s 11 = true \/ (zact_get s 0 = own s /\ other s = false).
+
+Lemma rd_shared_ok own other mark sid s fresh data ts :
+  zact_get s 0 = own s -> other s = false -> fresh = negb (zact_get s 0) ->
+  rd_shared own other mark sid s (TZ sid fresh true data :: ts)
+  = Ok (true, map (fun b => b mod 256) data) (zact_set (mark s) 0 true) ts.
+Proof.
+  intros Ho Hot ->. unfold rd_shared, rd_zblock, bind, get_st, upd_st, ret. rewrite Z.eqb_refl. cbn [negb].
+  rewrite <- Ho, Hot. destruct (zact_get s 0); reflexivity.
+Qed.
+
+Definition zlib_mark (s : cst) : cst :=
+  if fixed s 11 then set_zlibz (zact_set s 0 true) true else zact_set (set_zlibz s true) 0 true.
+
+Lemma rd_zlib_stream_ok s fresh data ts : zs_ready c_zlibz c_zrlez s -> fresh = negb (zact_get s 0) ->
+  rd_zlib_stream s (TZ 0 fresh true data :: ts) = Ok (true, map (fun b => b mod 256) data) (zlib_mark s) ts.
+Proof.
+  intros Hr Hf. unfold rd_zlib_stream, zlib_mark. unfold bind at 1. unfold get_st at 1.
+  destruct (fixed s 11) eqn:F.
+  - erewrite bind_ok; [|apply rd_stream_ok; exact Hf]. reflexivity.
+  - destruct Hr as [Hr|[H1 H2]]; [congruence|]. now apply rd_shared_ok.
+Qed.
+
+Lemma zlib_mark_same s : c_w (zlib_mark s) = c_w s /\ c_h (zlib_mark s) = c_h s /\ c_fb (zlib_mark s) = c_fb s.
+Proof. unfold zlib_mark. destruct (fixed s 11); repeat split; reflexivity. Qed.
+
 Theorem roundtrip_zlib s x y w h tgt ts fresh :
   st_wf s -> bypp_ok s -> 0 <= x -> 0 <= y -> 1 <= w -> 0 <= h -> x + w <= c_w s -> y + h <= c_h s ->
   rows_wf w h tgt -> Forall (Forall (px_ok (bypp_of s))) tgt ->
-  fresh = negb (zact_get s 0) ->
+  zs_ready c_zlibz c_zrlez s -> fresh = negb (zact_get s 0) ->
   let cap := if c_rawsz s <? w * h * bypp_of s then w * h * bypp_of s else c_rawsz s in
   dec_zlib x y w h s (ref_zlib (c_fmt s) fresh tgt ++ ts)
-  = Ok tt (set_fb (zact_set (set_rawsz s cap) 0 true) (blit_spec (c_fb s) x y tgt)) ts.
+  = Ok tt (set_fb (zlib_mark (set_rawsz s cap)) (blit_spec (c_fb s) x y tgt)) ts.
 Proof.
-  intros Hs [Hb1 Hb2] Hx Hy Hw Hh Hxw Hyh Ht Hp Hfresh cap.
+  intros Hs [Hb1 Hb2] Hx Hy Hw Hh Hxw Hyh Ht Hp Hready Hfresh cap.
   unfold dec_zlib, ref_zlib. cbn [app].
   erewrite bind_ok; [|reflexivity]. fold cap.
   erewrite bind_ok; [|reflexivity].
-  erewrite bind_ok; [|apply rd_stream_ok; exact Hfresh].
+  erewrite bind_ok; [|apply rd_zlib_stream_ok; [exact Hready|exact Hfresh]].
   rewrite map_mod_id by apply px_bytes_ok.
   cbn [negb].
   destruct Ht as [T1 T2].
@@ -47,8 +76,10 @@ Proof.
   erewrite bind_ok; [|reflexivity].
   rewrite firstn_all2 by (unfold zlen in Hlen; lia).
   rewrite px_of_bytes_px_bytes; [|lia|apply Forall_concat; exact Hp].
-  assert (Hs' : st_wf (zact_set (set_rawsz s cap) 0 true)) by (eapply st_wf_ext; [| | |exact Hs]; reflexivity).
-  rewrite (copy_rect_spec _ x y w h tgt ts Hs' Hx Hy Hw Hxw Hyh (conj T1 T2)). reflexivity.
+  destruct (zlib_mark_same (set_rawsz s cap)) as (M1 & M2 & M3).
+  assert (Hs' : st_wf (zlib_mark (set_rawsz s cap))) by (eapply st_wf_ext; [exact M1|exact M2|exact M3|exact Hs]).
+  rewrite (copy_rect_spec _ x y w h tgt ts Hs' Hx Hy Hw ltac:(rewrite M1; exact Hxw) ltac:(rewrite M2; exact Hyh) (conj T1 T2)).
+  rewrite M3. reflexivity.
 Qed.
 
 Theorem roundtrip_ultra s x y w h tgt ts :
